@@ -35,11 +35,11 @@ KDIjepaMaskCollator = _ijepa_mod.KDIjepaMaskCollator
 LEVEL = "exploration"
 RULE = ("alternating DINO / I-JEPA configurations: grids 3..24 (square and non-square), batch sizes 1..8 (B=1 boosted), "
         "DINO: views 1..3, mask_prob from {0, 1, k/(B*views), random}, ratio ranges from {scalar, lo=0, hi=1, k/(H*W) ends, "
-        "random}, min_num_patches 1..8, aspect ranges, 1..3 calls; I-JEPA: encoder/predictor scale ranges, aspect ranges, "
+        "random}, min_num_patches 1..8, aspect ranges, histories of 1..4 calls on one collator object with constant / shrinking (last partial batch) / growing / there-and-back / arbitrary batch sizes and every clause applied to every call; I-JEPA: encoder/predictor scale ranges, aspect ranges, "
         "1..3 encoder and 1..4 predictor masks, min_keep from {0, largest admissible, random}, tries 1..20, classes "
         "{in-domain, relaxation-prone, one-patch predictor block, empty predictor block (encoder size becomes decodable), "
         "library defaults}, three collators per case (different rng seeds, batch sizes, global RNG states; the third is "
-        "advanced with step()) called 1..4 times; dataset modes with 1..3 items, with/without per-sample ctx entries; "
+        "advanced with step()) called 1..4 times, each with its own batch-size history (same call count = same steps); dataset modes with 1..3 items, with/without per-sample ctx entries; "
         "a case is distinct by its full spec; trivial = return_ctx=False (only the batch pass-through is observable)")
 ASSUMPTIONS = [
     "row layout of the I-JEPA ctx tensors is (mask j, sample b) -> row j*B+b and indices are row-major r*W+c, as sliced/compared by tests_unit/collators/test_kd_ijepa_mask_collator.py",
@@ -55,7 +55,7 @@ ASSUMPTIONS = [
     "encoder block size is only observable when the predictor blocks are empty; otherwise the step-only clause is judged on predictor sizes",
     "the ambient-contract layer of DESIGN 1.5 (contracts while the pinned suite runs) is replaced by replaying the two pinned test configurations under the same oracle",
 ]
-MONITORS = ["dino_calls_checked", "dino_nonempty_masks_seen", "ijepa_calls_checked", "ijepa_pred_rectangles_decoded",
+MONITORS = ["dino_calls_after_batch_size_change", "ijepa_calls_after_batch_size_change", "dino_calls_checked", "dino_nonempty_masks_seen", "ijepa_calls_checked", "ijepa_pred_rectangles_decoded",
             "ijepa_disjointness_checked_in_domain", "ijepa_step_size_differential_checked", "ijepa_encoder_size_decoded",
             "batch_passthrough_checked", "step_budget_runs"]
 
@@ -92,6 +92,40 @@ def _batch_size(rng, cells):
     return b
 
 
+def _history(rng, cells, calls):
+    """batch sizes of consecutive calls on ONE collator object: constant, last partial batch (smaller), larger, there
+    and back, arbitrary"""
+    b = _batch_size(rng, cells)
+    if calls == 1:
+        return [b]
+    cap = 4 if cells > 300 else 8
+    kind = rng.choice(["const", "shrink", "shrink", "grow", "back", "random"])
+    if kind == "shrink" and b >= 2:
+        return [b] * (calls - 1) + [rng.randint(1, b - 1)]
+    if kind == "grow" and b < cap:
+        return [b] * (calls - 1) + [rng.randint(b + 1, cap)]
+    if kind == "back" and calls >= 3:
+        other = rng.choice([x for x in range(1, cap + 1) if x != b])
+        return [b if i % 2 == 0 else other for i in range(calls)]
+    if kind == "random":
+        return [rng.randint(1, cap) for _ in range(calls)]
+    return [b] * calls
+
+
+def _hist_class(h):
+    if len(h) == 1:
+        return "single"
+    if len(set(h)) == 1:
+        return "const"
+    d = {("shrink" if y < x else "grow") for x, y in zip(h, h[1:]) if x != y}
+    return "both" if len(d) == 2 else d.pop()
+
+
+def _as_history(b, calls):
+    """older specs carry one batch size per collator"""
+    return list(b) if isinstance(b, list) else [b] * calls
+
+
 def _frac(rng, n):
     """a ratio in [0, 1] biased to multiples of 1/n"""
     r = rng.random()
@@ -105,7 +139,9 @@ def _frac(rng, n):
 def _gen_dino(rng, quick):
     H, W = _grid(rng, quick)
     cells = H * W
-    B = _batch_size(rng, cells)
+    calls = rng.choice([1, 2, 3, 3, 4])
+    hist = _history(rng, cells, calls)
+    B = rng.choice(hist)
     views = rng.choice([1, 2, 2, 3])
     n = B * views
     r = rng.random()
@@ -133,12 +169,12 @@ def _gen_dino(rng, quick):
             a = min(a, b)
         ratio = [a, b]
     spec = {
-        "kind": "dino", "H": H, "W": W, "B": B, "views": views, "p": p, "ratio": ratio,
+        "kind": "dino", "H": H, "W": W, "B": hist, "views": views, "p": p, "ratio": ratio,
         "min_num_patches": rng.choice([4, 4, 1, 2, 3, 6, 8]),
         "min_aspect": rng.choice([0.3, 0.3, 0.2, 0.5, 1.0, round(rng.uniform(0.2, 1.0), 2)]),
         "max_aspect": rng.choice([None, None, 1.0, 2.0, round(rng.uniform(1.0, 4.0), 2)]),
         "mode": rng.choice(MODES), "x_form": rng.choice(["list", "list", "tensor"]), "ctx_tags": rng.random() < 0.5,
-        "return_ctx": rng.random() < 0.94, "calls": rng.choice([1, 1, 2, 3]),
+        "return_ctx": rng.random() < 0.94, "calls": calls,
         "seed": rng.randrange(2 ** 31), "g": rng.randrange(2 ** 31),
     }
     return spec
@@ -201,11 +237,10 @@ def _gen_ijepa(rng, quick):
             min_keep = rng.choice([0, diff - 1, diff - 1, rng.randint(0, diff - 1)])
         else:
             min_keep = rng.choice([0, enc_lb - 1, rng.randint(0, enc_lb - 1), min(10, enc_lb - 1)])
-        B = _batch_size(rng, cells)
-        steps = rng.choice([1, 2, 3, 4])
+        steps = rng.choice([1, 2, 3, 3, 4])
         spec.update(
             cls=want, min_keep=min_keep, tries=rng.choice([20, 20, 1, 2, 5, 10]), patch=rng.choice([1, 2, 16]),
-            B=[B, _batch_size(rng, cells), rng.choice([1, 2, 3])], steps=steps,
+            B=[_history(rng, cells, steps), _history(rng, cells, steps), rng.choice([1, 2, 3])], steps=steps,
             mode=rng.choice(MODES), ctx_tags=rng.random() < 0.5, return_ctx=rng.random() < 0.95,
             seeds=[rng.randrange(2 ** 31) for _ in range(3)], g=[rng.randrange(2 ** 31) for _ in range(3)],
             size_form=rng.choice(["int", "tuple"]) if H == W else "tuple",
@@ -321,7 +356,8 @@ def _int_bounds(p, n, up):
 
 
 def _run_dino(run, spec):
-    H, W, B, views, p = spec["H"], spec["W"], spec["B"], spec["views"], spec["p"]
+    H, W, views, p = spec["H"], spec["W"], spec["views"], spec["p"]
+    hist = _as_history(spec["B"], spec["calls"])
     cells = H * W
     ratio = spec["ratio"]
     rmax = ratio if not isinstance(ratio, list) else ratio[1]
@@ -329,32 +365,35 @@ def _run_dino(run, spec):
               mask_size=H if H == W and spec["seed"] % 2 == 0 else (H, W), num_views=views,
               min_num_patches=spec["min_num_patches"], min_aspect=spec["min_aspect"], max_aspect=spec["max_aspect"],
               dataset_mode=spec["mode"], return_ctx=spec["return_ctx"])
-    what = f"KDDinoMaskCollator({ {k: v for k, v in kw.items()} }) B={B} x={spec['x_form']}"
+    what = f"KDDinoMaskCollator({ {k: v for k, v in kw.items()} }) batch sizes {hist} x={spec['x_form']}"
     GlobalRngSentinel.seed_all(spec["g"])
     ok, coll = call_real(run, lambda: KDDinoMaskCollator(**kw).set_rng(np.random.default_rng(spec["seed"])), crash_key="dino:ctor-crash", what=what)
     if not ok:
         return
-    n = B * views
-    max_nonempty = _int_bounds(p, n, up=False)
     max_cells = _int_bounds(rmax, cells, up=True)
     # logical step budget: at most T blocks per mask (each adds >= 1 cell), a block iterates over at most ~2.5*max(remaining,
     # min_num_patches) cells and is found within 10 attempts
     T = max_cells + 1
     per_mask = sum(3 * max(r, spec["min_num_patches"]) + 60 for r in range(1, T + 1))
-    limit = 3 * (n * per_mask + 20 * n) + 2000
-    p_cls = "0" if p == 0 else "1" if p == 1 else "int" if float(p * n).is_integer() else "frac"
+    p_cls = "0" if p == 0 else "1" if p == 1 else "int" if float(p * hist[0] * views).is_integer() else "frac"
     r_cls = "scalar" if not isinstance(ratio, list) else "lo0" if ratio[0] == 0 else "hi1" if ratio[1] == 1 else "eq" if ratio[0] == ratio[1] else "range"
-    run.cover("dino", "B1" if B == 1 else "B>1", views, p_cls, r_cls, "3" if min(H, W) == 3 else "sq" if H == W else "rect",
+    run.cover("dino", "B1" if 1 in hist else "B>1", _hist_class(hist), views, p_cls, r_cls, "3" if min(H, W) == 3 else "sq" if H == W else "rect",
               len(spec["mode"].split(" ")), spec["x_form"], spec["return_ctx"])
-    for c in range(spec["calls"]):
-        r = _call(run, coll, spec, B, True, limit, f"{what} call {c}")
+    for c, B in enumerate(hist):
+        # every per-call clause is applied to every call of the history, with the batch size of THAT call
+        n = B * views
+        max_nonempty = _int_bounds(p, n, up=False)
+        limit = 3 * (n * per_mask + 20 * n) + 2000
+        if c > 0 and B != hist[c - 1]:
+            run.count("dino_calls_after_batch_size_change")
+        r = _call(run, coll, spec, B, True, limit, f"{what} call {c} (B={B})")
         if r is None:
             return
         _, ctx = r
         if ctx is None:
             run.count("dino_calls_without_ctx")
             continue
-        V = lambda key, msg: run.violation(key, f"{what} call {c}: {msg}")
+        V = lambda key, msg: run.violation(key, f"{what} call {c} (B={B}): {msg}")
         if "mask" not in ctx:
             V("dino:ctx-mask-missing", f"ctx has keys {sorted(ctx)}")
             return
@@ -378,7 +417,7 @@ def _run_dino(run, spec):
         if sums and max(sums) > max_cells:
             V("dino:mask-exceeds-ratio", f"a mask has {max(sums)} of {cells} cells set, promised at most ceil({rmax}*{cells}) = {max_cells}; cells per mask {sums}")
         if c == 0:
-            run.sample({"dino": {k: spec[k] for k in ("H", "W", "B", "views", "p", "ratio")}, "cells_per_mask": sums,
+            run.sample({"dino": {k: spec[k] for k in ("H", "W", "B", "views", "p", "ratio")}, "cells_per_mask_call0": sums,
                         "max_nonempty": max_nonempty, "max_cells": max_cells}, cap=3)
 
 
@@ -487,7 +526,8 @@ def _run_ijepa(run, spec):
     base = f"KDIjepaMaskCollator({kw})"
     mk_cls = "mk0" if spec["min_keep"] == 0 else "mkmax" if enc_lb - n_pred * pred_ub - 1 == spec["min_keep"] else "mk"
     run.cover("ijepa", spec["cls"], in_domain, "sq" if H == W else "rect", "3" if min(H, W) == 3 else "g", n_enc, n_pred, mk_cls,
-              "B1" if spec["B"][0] == 1 else "B>1", spec["return_ctx"])
+              "B1" if 1 in _as_history(spec["B"][0], spec["steps"]) else "B>1", _hist_class(_as_history(spec["B"][0], spec["steps"])),
+              spec["return_ctx"])
 
     def budget(B):
         # documented relaxation: one constraint is dropped every `tries` failures -> at most n_pred*tries+1 attempts per
@@ -504,10 +544,12 @@ def _run_ijepa(run, spec):
         coll = make(i)
         if coll is None:
             return
-        B = spec["B"][i]
+        hist = _as_history(spec["B"][i], spec["steps"])
         mine = []
-        for s in range(spec["steps"]):
-            what = f"{base} B={B} rng={spec['seeds'][i]} call {s}"
+        for s, B in enumerate(hist):
+            what = f"{base} batch sizes {hist} rng={spec['seeds'][i]} call {s} (B={B})"
+            if s > 0 and B != hist[s - 1]:
+                run.count("ijepa_calls_after_batch_size_change")
             r = _call(run, coll, spec, B, False, budget(B), what)
             if r is None:
                 return
@@ -543,7 +585,7 @@ def _run_ijepa(run, spec):
     for s in range(spec["steps"]):
         if a[s][0] != b[s][0] or (a[s][1] is not None and a[s][1] != b[s][1]):
             run.violation("ijepa:sizes-depend-on-more-than-step",
-                          f"{base}: at call {s} two collators that differ only in rng ({spec['seeds'][:2]}), batch size ({spec['B'][:2]}) and global "
+                          f"{base}: at call {s} two collators that differ only in rng ({spec['seeds'][:2]}), batch-size history ({spec['B'][:2]}) and global "
                           f"RNG state emit block sizes predictor/encoder {a[s]} vs {b[s]}")
             return
     if third is not None:
